@@ -288,7 +288,7 @@ def cli(cfg, ctx, rep):
                 continue
             for callee, n, ps in common.calls_in(b):
                 if callee in ("rcgen::KeyPair::serialize_pem", "rcgen::KeyPair::serialize_der", "rcgen::KeyPair::serialized_der"):
-                    uses.setdefault(callee, set()).add(name)
+                    uses.setdefault(callee, set()).update(common.known_owners(crate, name))
         allowed = {"cert::Ca::serialize_pem", "cert::EndEntity::serialize_pem"}
         flat = set().union(*uses.values()) if uses else set()
         rep.ob("C19.read", "%s|cli-private-key-export" % tag, flat <= allowed, "the CLI exports private keys only into the PemCertifiedKey it writes to the key file", expected=sorted(allowed), found=sorted(flat))
